@@ -61,6 +61,7 @@ var effectOps = map[string]string{
 	modPath + "lib/rsocks.GetIPSendSock":      "OpenIPSendSock",
 	"math/rand.Int63":                         "RandInt63",
 	modPath + "lib/rsocks.GetARPRecvSock": "OpenARPRecvSock",
+	modPath + "lib/rsocks.GetARPSendSock": "OpenARPSendSock",
 	modPath + "lib/arpping.Ping":          "Ping",
 	"(context.Context).Err": "CtxErr",
 }
@@ -158,7 +159,8 @@ func (x *X) envDef() string {
 	doc["SendEnv"] = "The world outside the translated sender goroutine of the client (sendMessage/sendSocket): sockets, the prober, the random source, the timer-or-cancel wait."
 	doc["FsEnv"] = "The file system as resolvconf.update sees it: one call per field, each of which may fail (C20)."
 	doc["RunEnv"] = "The world outside the translated receive loop and prober wrapper of lib/server: the receive socket, the handler goroutines it starts, the ARP prober."
-	for _, env := range []string{"Env", "DbEnv", "ArpEnv", "RunEnv", "CliEnv", "NewEnv", "ResEnv", "SendEnv", "FsEnv"} {
+	doc["SockEnv"] = "The world outside the two one-shot senders (server.sendUnicast, arpping.sendARPPing): a send socket that can be opened, written and closed, the timer-or-cancel wait."
+	for _, env := range []string{"Env", "DbEnv", "ArpEnv", "RunEnv", "CliEnv", "NewEnv", "ResEnv", "SendEnv", "FsEnv", "SockEnv"} {
 		n := 0
 		for _, o := range ops {
 			if o.env == env {
@@ -191,6 +193,10 @@ func (c *fctx) envName() string {
 	}
 	if strings.HasSuffix(c.fi.pkg.PkgPath, "lib/client/dclient") && (c.fi.obj.Name() == "sendMessage" || c.fi.obj.Name() == "sendSocket") {
 		return "SendEnv"
+	}
+	// the two one-shot senders: open a send socket, write, close (C19's deferClose / closeAfterUse disciplines)
+	if (strings.HasSuffix(c.fi.pkg.PkgPath, "lib/server") && c.fi.obj.Name() == "sendUnicast") || (strings.HasSuffix(c.fi.pkg.PkgPath, "lib/arpping") && c.fi.obj.Name() == "sendARPPing") {
+		return "SockEnv"
 	}
 	if strings.HasSuffix(c.fi.pkg.PkgPath, "lib/resolvconf") && c.fi.obj.Name() == "update" {
 		return "FsEnv"
